@@ -184,19 +184,51 @@ fn build(c: &Case) -> Built {
     b
 }
 
-fn observe(c: &Case) -> reader::Obs {
+/// A Route Monitoring message of the same family with the OPPOSITE add-path setting: the history that would show if the
+/// codec carried per-family state from one message into the next.
+fn adverse(c: &Case) -> Option<bmp::Message> {
+    if c.k != "rm" {
+        return None;
+    }
+    let fam = mc_family(&c.fam);
+    let src = mc_source(&c.peer, &c.local);
+    let entries = mc_entries(fam, "one", !c.addpath);
+    Some(bmp::Message::RouteMonitoring {
+        header: bmp::PerPeerHeader::new(0, src.remote_asn, Ipv4Addr::from(src.router_id), 0, src.remote_addr, 1),
+        update: bgp::Message::Update(bgp::Update::Reach { family: fam, entries, nexthop: mc_nexthop(fam, if fam == Family::IPV6 { "v6" } else { "v4" }), attr: mc_attrs("small") }),
+        addpath: !c.addpath,
+    })
+}
+
+fn observe(c: &Case, shared: &mut bmp::BmpCodec) -> reader::Obs {
     let built = match catch_unwind(AssertUnwindSafe(|| build(c))) {
         Ok(b) => b,
         Err(e) => return reader::Obs::failed("panic", &format!("converter: {}", panic_text(e))),
     };
     let mut codec = bmp::BmpCodec::new();
     let mut bufs: Vec<Vec<u8>> = Vec::new();
+    let mut fresh_bytes: Vec<u8> = Vec::new();
+    let mut shared_bytes: Vec<u8> = Vec::new();
+    // the same messages through the long-lived codec of a BMP session, right after an adverse one
+    let _ = catch_unwind(AssertUnwindSafe(|| {
+        if let Some(a) = adverse(c) {
+            let mut scratch = bytes::BytesMut::new();
+            let _ = shared.encode(&a, &mut scratch);
+        }
+        for m in &built.msgs {
+            let mut b = bytes::BytesMut::new();
+            if shared.encode(m, &mut b).is_ok() {
+                shared_bytes.extend_from_slice(&b);
+            }
+        }
+    }));
     for m in &built.msgs {
         let mut buf = bytes::BytesMut::new();
         match catch_unwind(AssertUnwindSafe(|| codec.encode(m, &mut buf))) {
             Err(e) => return reader::Obs::failed("panic", &format!("BmpCodec::encode: {}", panic_text(e))),
             Ok(Err(e)) => return reader::Obs::failed("error", &format!("{e:?}")),
             Ok(Ok(())) => {
+                fresh_bytes.extend_from_slice(&buf);
                 // one monitored event may take several BMP messages: walk them by their length fields; they have to tile
                 // what was written exactly
                 let raw = buf.to_vec();
@@ -215,6 +247,7 @@ fn observe(c: &Case) -> reader::Obs {
     }
     let mut o = reader::Obs::new();
     o.nrec = bufs.len();
+    o.stateless = fresh_bytes == shared_bytes;
     let mut all_pdus: Vec<Vec<u8>> = Vec::new();
     let mut v_all = true;
     let mut v_any = false;
@@ -407,13 +440,14 @@ fn c19_bmp_records() {
     let mut out = std::io::BufWriter::new(std::fs::File::create(outp).unwrap());
     let hook = std::panic::take_hook();
     std::panic::set_hook(Box::new(|_| {}));
+    let mut shared = bmp::BmpCodec::new();
     for line in std::io::BufReader::new(std::fs::File::open(inp).unwrap()).lines() {
         let line = line.unwrap();
         let Some(c) = parse_case(&line) else { continue };
         if !matches!(c.k.as_str(), "rm" | "peerup" | "peerdown" | "initiation") || c.x == "established" {
             continue;
         }
-        let o = observe(&c);
+        let o = observe(&c, &mut shared);
         writeln!(out, "{{\"i\":{},\"obs\":{}}}", c.i, o.to_json()).unwrap();
     }
     std::panic::set_hook(hook);
